@@ -1,4 +1,4 @@
-CONSTANTS MaxCount = 2 MaxExtra = 1
+CONSTANTS MaxCount = 2 MaxExtra = 1 Rule = "coded"
 SPECIFICATION Spec
 INVARIANTS TypeOK
 CONSTRAINT Dump
